@@ -13,7 +13,7 @@ from .registry import PROPS
 from .verus import count_obligations, run_verus
 
 VERIF = os.path.dirname(os.path.dirname(os.path.abspath(__file__)))
-BUILD = os.path.join(VERIF, '.build')
+BUILD = os.environ.get('VERIF_BUILD') or os.path.join(VERIF, '.build')   # VERIF_BUILD: a private build directory for a parallel scratch run
 CANARY_ID = '__canary.ensures[false]'
 
 
@@ -157,7 +157,7 @@ def check_property(pid, tier, seed):
             print(f'NOTE: known finding {k["id"]} did not reproduce on this tree (its obligations verified)')
 
     # ---- replay files
-    rdir = os.path.join(VERIF, 'replays', pid)
+    rdir = os.path.join(BUILD if os.environ.get('VERIF_BUILD') else VERIF, 'replays', pid)
     lines = []
     for f in viol:
         os.makedirs(rdir, exist_ok=True)
